@@ -3,6 +3,7 @@ package props
 import (
 	"fmt"
 	"go/types"
+	"strings"
 
 	"jrpcvet/internal/facts"
 
@@ -76,7 +77,7 @@ func ruleStopCancelsTable(c *chk.Ctx, owner string, table *types.Var, via *types
 			closeSite = s.instr
 		}
 	}
-	var good *ssa.Range
+	var good ssa.Instruction
 	for _, g := range c.P.Ext(stop) {
 		for _, r := range rangesOverField(g, table) {
 			for _, v := range rangedValues(r) {
@@ -85,6 +86,47 @@ func ruleStopCancelsTable(c *chk.Ctx, owner string, table *types.Var, via *types
 				}
 			}
 		}
+		// range over maps.Values(table) / maps.All(table): go/ssa compiles the loop body into a
+		// yield function that is handed to the iterator
+		ir.Instrs(g, func(ins ssa.Instruction) {
+			seqCall, ok := ins.(*ssa.Call)
+			if !ok || len(seqCall.Call.Args) != 1 {
+				return
+			}
+			mk, ok := seqCall.Call.Value.(*ssa.Call)
+			if !ok || len(mk.Call.Args) != 1 || !chk.LoadsField(mk.Call.Args[0], table) {
+				return
+			}
+			callee := ir.CalleeName(&mk.Call)
+			valueParam := -1
+			switch {
+			case strings.HasPrefix(callee, "maps.Values"):
+				valueParam = 0
+			case strings.HasPrefix(callee, "maps.All"):
+				valueParam = 1
+			}
+			if valueParam < 0 {
+				return
+			}
+			yc, ok := seqCall.Call.Args[0].(*ssa.MakeClosure)
+			if !ok {
+				return
+			}
+			yf := yc.Fn.(*ssa.Function)
+			if valueParam >= len(yf.Params) {
+				return
+			}
+			// the yield function must visit every entry: it never returns false
+			all := true
+			for _, r := range ir.Returns(yf) {
+				if k, isK := ir.ReturnResult(r, 0).(*ssa.Const); !isK || k.Value == nil || k.Value.String() != "true" {
+					all = false
+				}
+			}
+			if _, ok := callsValueOrField(yf.Params[valueParam], via); ok && all {
+				good = seqCall
+			}
+		})
 	}
 	if good == nil {
 		c.Fail("TOKEN.stop", stop, what, stop.Pos(), "the stop function does not range over %s invoking each entry's cancel function: %s would never be released at stop", table.Name(), what)
@@ -373,7 +415,6 @@ func ruleDispatcherExit(c *chk.Ctx) {
 		c.Undecided("RUN.drain", f, "dispatcher exit", f.Pos(), "no give-up return found in the dispatcher")
 	}
 }
-
 
 // succOfCond returns the successor of the If behind outcome cd that is taken
 // when cd holds.
